@@ -1,11 +1,1658 @@
-//! C17 — not implemented yet (stub).
-use crate::engine::Ctx;
-use serde_json::Value;
+//! C17 — the functional derivative is the derivative of the discretised functional.
+//!
+//! Parts:
+//! * `variation` (sampled): oracle (1) first variation (Ridders in eps of the integrated
+//!   Helmholtz energy density vs the integral of dF/drho * phi) and oracle (2) adjointness of
+//!   `Convolver::weighted_densities` / `Convolver::functional_derivative` on the functional's
+//!   own convolver (scalar, vector, local and FMT weights together; per-row localisation).
+//! * `shapes` (lattice): oracle (2) per weight-function shape, geometry, size and Lanczos
+//!   setting, including the identity kernel (pure transform pair) — decides whether the polar
+//!   plateau (F10) belongs to the transform pair or to one weight function.
+//! * `newton-step` (sampled): black-box second variation. One Newton step of the library
+//!   (`DFTSolver::newton`, max_iter 1, converged GMRES read from `solver_log`) must solve the
+//!   Newton equation whose Jacobian is the numerical derivative of the public Euler-Lagrange
+//!   residual: res(rho) + d/d eps res(rho + eps * step) = 0. Covers
+//!   `second_partial_derivatives`, `delta_functional_derivative`, `delta_bond_integrals`.
+//! * `newton-convergence` (sampled): oracle (4), quadratic convergence of the Newton solver in
+//!   slit / cylindrical / spherical pores and planar interfaces read from `solver_log`.
+use crate::engine::{Ctx, Gen, Obs, PanicPolicy, PartCfg};
+use crate::model::*;
+use crate::oracle::{derivative_verdict, ridders, DVerdict};
+use crate::props::c16::{acyclic_gc, build_bulk, gen_grid, limit_work, GridKind, GridSpec, FUNCTIONALS};
+use feos::core::{PhaseEquilibrium, ReferenceSystem, State};
+use feos_dft::adsorption::{ExternalPotential, Pore1D, PoreSpecification};
+use feos_dft::interface::PlanarInterface;
+use feos_dft::{
+    Convolver, ConvolverFFT, DFTProfile, DFTSolver, FunctionalContribution, Geometry, Grid,
+    HelmholtzEnergyFunctional, WeightFunction, WeightFunctionInfo, WeightFunctionShape,
+};
+use ndarray::{arr1, Array, Array1, Array2, ArrayD, Axis, Dimension, Ix1, Ix2, Ix3, IxDyn, RemoveAxis};
+use quantity::*;
+use serde::{Deserialize, Serialize};
+use serde_json::{json, Value};
+use std::collections::BTreeMap;
+use std::sync::{Arc, Mutex};
 
-pub fn run(_ctx: &Ctx) {
-    panic!("C17: check not implemented yet");
+// ---------------------------------------------------------------------------------------
+// measurements for the evidence (never used for a verdict)
+// ---------------------------------------------------------------------------------------
+static WORST: Mutex<BTreeMap<String, f64>> = Mutex::new(BTreeMap::new());
+
+fn note(key: &str, v: f64) {
+    let mut w = WORST.lock().unwrap();
+    let e = w.entry(key.to_string()).or_insert(0.0);
+    if v > *e || v.is_nan() {
+        *e = v;
+    }
 }
 
-pub fn replay(_ctx: &Ctx, _part: &str, _case: &Value) -> bool {
-    panic!("C17: check not implemented yet");
+fn decade(v: f64) -> i32 {
+    if v > 0.0 {
+        v.log10().ceil() as i32
+    } else {
+        -99
+    }
+}
+
+// ---------------------------------------------------------------------------------------
+// tolerances (relative to the cancellation-safe scale of each comparison)
+// ---------------------------------------------------------------------------------------
+fn is_exact_geometry(kind: GridKind) -> bool {
+    !matches!(kind, GridKind::Spherical | GridKind::Polar | GridKind::Cylindrical)
+}
+
+// First-variation identity and adjointness with the grid's own integration weights.
+// Cartesian / periodic grids: the discrete transforms are exact transposes of each other
+// (roundoff + Ridders accuracy). Spherical: the sine-transform pair is exactly adjoint in the
+// measure r^2 while the integration weights are the exact shell volumes 4 pi (r^2 + dr^2/12) dr:
+// the difference is bounded case by case by (dr^2/12) 4 pi dr sum |terms| and admitted. Polar
+// axis: quasi-discrete Hankel transform on a logarithmic grid, method accuracy.
+/// polar axis (quasi-discrete Hankel transform on a logarithmic grid): accuracy of the method,
+/// relative to the *largest* values on the grid (sup-norm scale, see check_variation).
+/// Measured on the pinned tree (320 polar/cylindrical cases + lattice): transform pair alone,
+/// compact mid-domain fields: plateau 1.9e-5 for every n >= 512 and every kernel including the
+/// identity (3.6e-3 at n = 256); with functionals: first variation <= 4.0e-3 (n < 1024),
+/// <= 3.5e-4 (n >= 1024); adjointness <= 2.6e-3 (cylindrical, n < 1024), <= 2.9e-4 (polar).
+fn tol_polar(n0: usize, _rmax_over_l: f64) -> f64 {
+    if n0 < 1024 {
+        0.5
+    } else {
+        0.05
+    }
+}
+/// transform pair alone on the lattice (n >= 512)
+const POLAR_PLATEAU: f64 = 2e-3;
+const TOL_VARIATION_EXACT: f64 = 1e-7;
+/// models with association: the site fractions are iterated to tol_cross_assoc (1e-10 absolute),
+/// which is noise of that size in F(eps) and of 1e-10/h in its difference quotients
+const TOL_VARIATION_ASSOC: f64 = 1e-6;
+const TOL_VARIATION_COARSE_SPHERICAL: f64 = 2e-4;
+const TOL_ADJOINT_EXACT: f64 = 1e-13;
+/// spherical transform pair in its natural measure r^2
+const TOL_ADJOINT_NATURAL: f64 = 1e-10;
+
+// ---------------------------------------------------------------------------------------
+// helpers
+// ---------------------------------------------------------------------------------------
+/// C^3 bump with compact support |x| < 3
+fn bump(x: f64) -> f64 {
+    if x.abs() >= 3.0 {
+        0.0
+    } else {
+        (-x * x).exp() * (1.0 - x * x / 9.0).powi(4)
+    }
+}
+
+/// array (rows x grid) from a function of (row, grid index)
+fn field<DL: Dimension>(nrows: usize, shape: &[usize], f: impl Fn(usize, &[usize]) -> f64) -> Array<f64, DL> {
+    let mut sh = vec![nrows];
+    sh.extend_from_slice(shape);
+    ArrayD::from_shape_fn(IxDyn(&sh), |ix| {
+        let s = ix.slice();
+        f(s[0], &s[1..])
+    })
+    .into_dimensionality::<DL>()
+    .unwrap()
+}
+
+fn integ<D>(profile: &DFTProfile<D, Model>, a: Array<f64, D>) -> f64
+where
+    D: Dimension,
+    D::Larger: Dimension<Smaller = D>,
+{
+    profile.integrate(&Dimensionless::from_reduced(a)).to_reduced()
+}
+
+/// sum over rows of the integral of a_row * b_row, and of |a_row * b_row|
+fn inner<D>(profile: &DFTProfile<D, Model>, a: &Array<f64, D::Larger>, b: &Array<f64, D::Larger>) -> (f64, f64)
+where
+    D: Dimension,
+    D::Larger: Dimension<Smaller = D>,
+{
+    let mut s = 0.0;
+    let mut sa = 0.0;
+    for (x, y) in a.outer_iter().zip(b.outer_iter()) {
+        let p = &x * &y;
+        sa += integ(profile, p.mapv(f64::abs));
+        s += integ(profile, p);
+    }
+    (s, sa)
+}
+
+/// one contribution evaluated with a convolver planned for that contribution alone (the same
+/// public building blocks as `HelmholtzEnergyFunctional::functional_derivative`)
+struct Contrib<D: Dimension>
+where
+    D::Larger: Dimension<Smaller = D>,
+{
+    name: String,
+    /// Helmholtz energy density
+    f: Array<f64, D>,
+    /// functional derivative
+    g: Array<f64, D::Larger>,
+    /// partial derivatives with respect to the weighted densities
+    pd: Array<f64, D::Larger>,
+    conv: Arc<dyn Convolver<f64, D>>,
+}
+
+fn contribution_derivatives<D>(
+    dft: &Model,
+    t: f64,
+    rho: &Array<f64, D::Larger>,
+    grid: &Grid,
+    lanczos: Option<i32>,
+) -> Result<Vec<Contrib<D>>, String>
+where
+    D: Dimension + RemoveAxis + 'static,
+    D::Larger: Dimension<Smaller = D>,
+    D::Smaller: Dimension<Larger = D>,
+    <D::Larger as Dimension>::Larger: Dimension<Smaller = D::Larger>,
+{
+    let mut out = vec![];
+    for c in dft.contributions() {
+        let wfi: WeightFunctionInfo<f64> = c.weight_functions(t);
+        let conv: Arc<dyn Convolver<f64, D>> = ConvolverFFT::plan(grid, &[wfi], lanczos);
+        let wd = conv.weighted_densities(rho).remove(0);
+        let nwd = wd.shape()[0];
+        let ngrid = wd.len() / nwd;
+        let mut f: Array<f64, D> = Array::zeros(rho.raw_dim().remove_axis(Axis(0)));
+        let mut pd = Array::zeros(wd.raw_dim());
+        c.first_partial_derivatives(
+            t,
+            wd.into_shape_with_order((nwd, ngrid)).unwrap(),
+            f.view_mut().into_shape_with_order(ngrid).unwrap(),
+            pd.view_mut().into_shape_with_order((nwd, ngrid)).unwrap(),
+        )
+        .map_err(|e| e.to_string())?;
+        let g = conv.functional_derivative(&[pd.clone()]);
+        out.push(Contrib {
+            name: c.to_string(),
+            f,
+            g,
+            pd,
+            conv,
+        });
+    }
+    Ok(out)
+}
+
+/// sum over rows of sqrt(int a_row^2) sqrt(int b_row^2)
+fn norm_scale<D>(profile: &DFTProfile<D, Model>, a: &Array<f64, D::Larger>, b: &Array<f64, D::Larger>) -> f64
+where
+    D: Dimension,
+    D::Larger: Dimension<Smaller = D>,
+{
+    let mut s = 0.0;
+    for (x, y) in a.outer_iter().zip(b.outer_iter()) {
+        s += (integ(profile, &x * &x) * integ(profile, &y * &y)).sqrt();
+    }
+    s
+}
+
+/// sum over all elements of |a * b| (no integration weights)
+fn abs_dot<DD: Dimension>(a: &Array<f64, DD>, b: &Array<f64, DD>) -> f64 {
+    a.iter().zip(b.iter()).map(|(x, y)| (x * y).abs()).sum()
+}
+
+/// largest kernel radius of the functional's weight functions (Angstrom)
+fn max_kernel_radius(dft: &Model, t: f64) -> f64 {
+    let mut r = 0.0f64;
+    for w in dft.weight_functions(t) {
+        for list in w.as_slice() {
+            for wf in list.iter() {
+                for x in wf.kernel_radius.iter() {
+                    r = r.max(*x);
+                }
+            }
+        }
+    }
+    r
+}
+
+/// Ridders verdict for a first variation: analytic `a` vs d/d eps of `f` at 0; `abs_allow` is a
+/// rigorous bound on a known discretisation difference that is admitted on top of rtol * scale.
+/// Returns (verdict, message, best (|a - d| reduced by abs_allow, Ridders error, scale)).
+fn variation_verdict(
+    a: f64,
+    scale: f64,
+    abs_allow: f64,
+    rtol: f64,
+    f: &dyn Fn(f64) -> Option<f64>,
+) -> (DVerdict, String, Option<(f64, f64, f64)>) {
+    let mut verdict = DVerdict::Inconclusive;
+    let mut info = String::new();
+    let mut mism: Vec<f64> = vec![];
+    let mut best: Option<(f64, f64, f64)> = None;
+    for h0 in [0.1, 0.03, 0.25] {
+        let Some((dnum, err)) = ridders(f, 0.0, h0) else {
+            if info.is_empty() {
+                info = "neighbour evaluation failed".into();
+            }
+            continue;
+        };
+        let s = a.abs().max(dnum.abs()).max(scale);
+        let excess = ((a - dnum).abs() - abs_allow).max(0.0);
+        if best.map(|b| err < b.1).unwrap_or(true) {
+            best = Some((excess, err, s));
+        }
+        // same rule as oracle::derivative_verdict with the admitted absolute term
+        let v = if !a.is_finite() {
+            DVerdict::Mismatch
+        } else if !(err <= 1e-5 * s) {
+            DVerdict::Inconclusive
+        } else if excess > (50.0 * err).max(rtol * s) {
+            DVerdict::Mismatch
+        } else {
+            DVerdict::Ok
+        };
+        match v {
+            DVerdict::Ok => {
+                verdict = DVerdict::Ok;
+                break;
+            }
+            DVerdict::Mismatch => {
+                info = format!("analytic {a:e} vs numeric {dnum:e} (Ridders error {err:e}, scale {s:e}, rtol {rtol:e}, admitted discretisation bound {abs_allow:e}, h0 {h0})");
+                if mism.iter().any(|d0| (d0 - dnum).abs() <= 100.0 * rtol * s) {
+                    verdict = DVerdict::Mismatch;
+                    break;
+                }
+                mism.push(dnum);
+            }
+            DVerdict::Inconclusive => {
+                if info.is_empty() {
+                    info = format!("Ridders error {err:e} vs scale {s:e}");
+                }
+            }
+        }
+    }
+    (verdict, info, best)
+}
+
+// =======================================================================================
+// Part A: first variation + adjointness on the functional's own convolver
+// =======================================================================================
+#[derive(Serialize, Deserialize, Clone, Debug)]
+pub struct ProfSpec {
+    /// false: tanh interface between f_lo and f_hi; true: damped oscillation around f_hi
+    pub osc: bool,
+    /// densities as fractions of the maximum density of the model
+    pub f_lo: f64,
+    pub f_hi: f64,
+    /// interface position (fraction of the first axis) and width (fraction of its length)
+    pub u0: f64,
+    pub w: f64,
+    /// dense phase at small coordinates
+    pub dense_inside: bool,
+    pub amp: f64,
+    pub lam: f64,
+    pub period: f64,
+    /// composition on the dilute / dense side
+    pub x_lo: Vec<f64>,
+    pub x_hi: Vec<f64>,
+    /// cosine modulation along the other axes
+    pub a2: f64,
+    pub k2: usize,
+}
+
+#[derive(Serialize, Deserialize, Clone, Debug)]
+pub struct PertSpec {
+    /// centre (fraction of the axis length, 0.3-0.7) and width (fraction of L/12) per axis
+    pub c: Vec<f64>,
+    pub s: Vec<f64>,
+    /// weight per component (one component only, or mixed)
+    pub weights: Vec<f64>,
+}
+
+#[derive(Serialize, Deserialize, Clone, Debug)]
+pub struct VarCase {
+    pub grid: GridSpec,
+    pub spec: ModelSpec,
+    pub tau: f64,
+    pub lanczos: Option<i32>,
+    pub prof: ProfSpec,
+    pub pert: PertSpec,
+    /// offsets of the Weyl sequences that place the test fields of the adjointness check
+    pub psi: [f64; 2],
+}
+
+/// one-dimensional grids twice as often as the (expensive) multi-dimensional ones
+const VAR_KINDS: [GridKind; 11] = [
+    GridKind::Cartesian1,
+    GridKind::Spherical,
+    GridKind::Polar,
+    GridKind::Cartesian2,
+    GridKind::Cartesian1,
+    GridKind::Spherical,
+    GridKind::Polar,
+    GridKind::Periodical2,
+    GridKind::Cylindrical,
+    GridKind::Periodical3,
+    GridKind::Cartesian3,
+];
+
+fn gen_var_grid(g: &mut Gen) -> GridSpec {
+    // 1-D grids: 64-4096 points, 2-D: <= 48, 3-D: <= 14 (small, as designed)
+    let mut grid = if std::env::var("C17_ONLY_POLAR").is_ok() {
+        // calibration aid: polar axes only
+        gen_grid(g, &[GridKind::Polar, GridKind::Cylindrical], 4096, 48, 14)
+    } else if std::env::var("C17_ONLY_SPHERICAL").is_ok() {
+        gen_grid(g, &[GridKind::Spherical], 4096, 48, 14)
+    } else {
+        gen_grid(g, &VAR_KINDS, 4096, 48, 14)
+    };
+    if grid.kind.dim() == 1 && grid.n[0] < 64 {
+        grid.n[0] += 48;
+    }
+    grid.offset = 0.0;
+    if !is_exact_geometry(grid.kind) {
+        // room for the kernel range between the perturbation and the outer boundary: map the
+        // length of the curvilinear axis from 10-300 A to 60-300 A
+        let u = (grid.len[0].ln() - 10f64.ln()) / (300f64.ln() - 10f64.ln());
+        grid.len[0] = (60f64.ln() + u * (300f64.ln() - 60f64.ln())).exp();
+    }
+    if grid.kind.has_polar_axis() {
+        // the quasi-discrete Hankel transform needs n >= 512 (DESIGN C17)
+        if grid.kind == GridKind::Cylindrical {
+            grid.n[0] = 512 + 64 * (grid.n[0] % 5);
+            grid.n[1] = grid.n[1].clamp(8, 12);
+        } else {
+            // n was drawn log-uniformly from 16-4096: map to 512-4096
+            let u = ((grid.n[0] as f64).ln() - 16f64.ln()) / (4096f64.ln() - 16f64.ln());
+            grid.n[0] = (512.0 * 8f64.powf(u.clamp(0.0, 1.0)) + 1e-9).floor() as usize;
+        }
+    }
+    grid
+}
+
+pub fn decode_var(g: &mut Gen) -> VarCase {
+    let grid = gen_var_grid(g);
+    let max_comp = if grid.kind.dim() == 1 { 3 } else { 2 };
+    let mut spec = gen_model(
+        g,
+        &GenCfg {
+            families: FUNCTIONALS.to_vec(),
+            min_comp: 1,
+            max_comp,
+        },
+    );
+    acyclic_gc(&mut spec);
+    let mut grid = grid;
+    if !grid.kind.has_polar_axis() {
+        limit_work(&mut grid, &spec);
+    }
+    let n = spec.n();
+    let d = grid.kind.dim();
+    let tau = g.range(0.5, 1.6);
+    let lanczos = [None, Some(1), Some(2)][g.index(3)];
+    let osc = g.bool(0.35);
+    let prof = ProfSpec {
+        osc,
+        f_lo: g.log_range(1e-4, 0.05),
+        f_hi: g.range(0.3, 0.85),
+        u0: g.range(0.3, 0.7),
+        w: g.range(0.02, 0.1),
+        dense_inside: g.bool(0.5),
+        amp: g.range(0.05, 0.4),
+        lam: g.range(0.1, 0.4),
+        period: g.range(0.03, 0.15),
+        x_lo: g.simplex(n, 0.02),
+        x_hi: g.simplex(n, 0.02),
+        a2: g.range(0.0, 0.3),
+        k2: 1 + g.index(3),
+    };
+    let single = g.bool(0.5);
+    let which = g.index(n);
+    let weights = (0..n)
+        .map(|i| {
+            let w = g.range(-1.0, 1.0);
+            if single {
+                if i == which {
+                    1.0
+                } else {
+                    0.0
+                }
+            } else if w.abs() < 0.1 {
+                0.5
+            } else {
+                w
+            }
+        })
+        .collect();
+    let curvi = !is_exact_geometry(grid.kind);
+    let pert = PertSpec {
+        c: (0..d).map(|a| g.range(0.3, if curvi && a == 0 { 0.6 } else { 0.7 })).collect(),
+        s: (0..d).map(|_| g.range(0.3, 1.0)).collect(),
+        weights,
+    };
+    let psi = [g.unit(), g.unit()];
+    VarCase {
+        grid,
+        spec,
+        tau,
+        lanczos,
+        prof,
+        pert,
+        psi,
+    }
+}
+
+/// (fraction of the maximum density, mixing parameter between x_lo and x_hi) at coordinate u
+fn axis_profile(p: &ProfSpec, u: f64, l: f64, shift: f64, wall: f64) -> (f64, f64) {
+    if p.osc {
+        let dist = (if p.dense_inside { u } else { wall - u } + shift).max(0.0);
+        let f = p.f_hi * (1.0 + p.amp * (-dist / (p.lam * l)).exp() * (2.0 * std::f64::consts::PI * dist / (p.period * l)).cos());
+        (f, 1.0)
+    } else {
+        let mut s = 0.5 * (1.0 + ((u - p.u0 * l - shift) / (p.w * l)).tanh());
+        if p.dense_inside {
+            s = 1.0 - s;
+        }
+        (p.f_lo + (p.f_hi - p.f_lo) * s, s)
+    }
+}
+
+struct VarSetup {
+    model: Arc<Model>,
+    bulk: State<Model>,
+    t: f64,
+    rho_max: f64,
+}
+
+fn var_setup(spec: &ModelSpec, tau: f64, x: &[f64], f_hi: f64, obs: &mut Obs) -> Option<VarSetup> {
+    let model = match spec.build() {
+        Ok(m) => m,
+        Err(e) => {
+            obs.discard(format!("build:{}", e.chars().take(40).collect::<String>()));
+            return None;
+        }
+    };
+    let st = StateSpec {
+        tau,
+        f_eta: 1.0,
+        x: x.to_vec(),
+        lambda: 1.0,
+    };
+    let mut inputs = match state_inputs(spec, &model, &st) {
+        Ok(i) => i,
+        Err(e) => {
+            obs.discard(format!("inputs:{e}"));
+            return None;
+        }
+    };
+    if spec.family == Family::SaftVRQMieFunctional && inputs.0.to_reduced() < 20.0 {
+        inputs.0 = Temperature::from_reduced(20.0);
+    }
+    let rho_max = (inputs.2.sum() / inputs.1).to_reduced();
+    // bulk state of the profile object (only its temperature matters for this part)
+    let inputs_b = (inputs.0, inputs.1 / f_hi, inputs.2.clone());
+    let bulk = match build_state(&model, &inputs_b) {
+        Ok(s) => s,
+        Err(e) => {
+            obs.discard(format!("state:{}", e.chars().take(40).collect::<String>()));
+            return None;
+        }
+    };
+    Some(VarSetup {
+        t: inputs.0.to_reduced(),
+        model,
+        bulk,
+        rho_max,
+    })
+}
+
+fn check_variation<D>(case: &VarCase, obs: &mut Obs, su: &VarSetup)
+where
+    D: Dimension + RemoveAxis + 'static,
+    D::Larger: Dimension<Smaller = D>,
+    D::Smaller: Dimension<Larger = D>,
+    <D::Larger as Dimension>::Larger: Dimension<Smaller = D::Larger>,
+{
+    let kind = case.grid.kind;
+    let grid = case.grid.build();
+    let dft = su.model.clone();
+    let t = su.t;
+    let coords: Vec<Array1<f64>> = grid.axes().iter().map(|a| a.grid.clone()).collect();
+    let shape: Vec<usize> = coords.iter().map(|c| c.len()).collect();
+    let lens = &case.grid.len;
+    let ci = dft.component_index().into_owned();
+    let nseg = ci.len();
+    let p = &case.prof;
+    let d = shape.len();
+    let exact = is_exact_geometry(kind);
+    let akey = if case.spec.has_association() { "assoc" } else { "plain" };
+
+    // ---- width of the perturbation along each axis. Curvilinear axes: the uniform part of a
+    // profile is transported by the boundary split of CurvilinearConvolver, which presumes that
+    // the convolution conserves mass; on the grid this holds to the extent that the perturbation
+    // is resolved (spectral tail ~ exp(-(pi s/dr)^2/4)) and that it stays away from the outer
+    // boundary by more than the kernel range. Both are part of "smooth perturbation supported
+    // away from the boundary": width >= 3.5 local grid spacings, distance >= largest radius. ----
+    let mut widths: Vec<f64> = (0..d).map(|a| case.pert.s[a] * lens[a] / 12.0).collect();
+    let mut flat: Option<(f64, f64)> = None;
+    if !exact {
+        let c0 = case.pert.c[0] * lens[0];
+        let i0 = coords[0].iter().position(|r| *r >= c0 + 3.0 * widths[0]).unwrap_or(shape[0] - 1).max(1);
+        let dr = coords[0][i0] - coords[0][i0 - 1];
+        widths[0] = widths[0].max(3.5 * dr);
+        let rmax = max_kernel_radius(&dft, t);
+        if c0 + 3.0 * widths[0] + rmax > lens[0] {
+            obs.discard("perturbation closer to the outer boundary than the kernel range");
+            return;
+        }
+        obs.class(format!("perturbation-width/spacing>={}", ((widths[0] / dr) as usize).min(16)));
+        // Spherical and polar axes end in the bulk: the boundary value of the profile is continued
+        // beyond the grid, and the vector weighted densities are taken to vanish there. The
+        // profile is therefore made exactly flat within the kernel range (+ 4 cells) of the outer
+        // boundary, with a C^2 transition over 0.12 L before that shell.
+        let dr_out = coords[0][shape[0] - 1] - coords[0][shape[0] - 2];
+        let r2 = lens[0] - rmax - 4.0 * dr_out;
+        flat = Some((r2 - 0.12 * lens[0], r2));
+    }
+
+    // ---- density profile and perturbation ----
+    let modulation = |ix: &[usize]| -> f64 {
+        let mut m = 1.0;
+        for a in 1..d {
+            m *= 1.0 + p.a2 * (std::f64::consts::PI * p.k2 as f64 * coords[a][ix[a]] / lens[a]).cos();
+        }
+        m
+    };
+    let wall = flat.map(|f| f.0).unwrap_or(lens[0]);
+    let raw = |s: usize, u: f64| -> f64 {
+        let shift = ((s % 3) as f64 - 1.0) * 0.02 * lens[0];
+        let (f, mix) = axis_profile(p, u, lens[0], shift, wall);
+        let c = ci[s];
+        let x = p.x_lo[c] + (p.x_hi[c] - p.x_lo[c]) * mix;
+        x * f * su.rho_max
+    };
+    let rho: Array<f64, D::Larger> = field(nseg, &shape, |s, ix| {
+        let u = coords[0][ix[0]];
+        let mut v = raw(s, u);
+        if let Some((r1, r2)) = flat {
+            let x = ((u - r1) / (r2 - r1)).clamp(0.0, 1.0);
+            let cut = 1.0 - x * x * x * (10.0 - 15.0 * x + 6.0 * x * x);
+            let v_out = raw(s, lens[0]);
+            v = v_out + (v - v_out) * cut;
+        }
+        v * modulation(ix)
+    });
+    if rho.iter().any(|r| !(*r > 0.0) || !r.is_finite()) {
+        obs.discard("non-positive density profile");
+        return;
+    }
+    let window = |ix: &[usize]| -> f64 {
+        let mut b = 1.0;
+        for a in 0..d {
+            b *= bump((coords[a][ix[a]] - case.pert.c[a] * lens[a]) / widths[a]);
+        }
+        b
+    };
+    let bwin: Array<f64, D::Larger> = field(1, &shape, |_, ix| window(ix));
+    // phi_s = w_c * rho_ref_s * B(r), rho_ref_s = min of rho_s over the support of B (so that
+    // rho + eps phi > 0 for |eps| < 1)
+    let mut rho_ref = vec![f64::MAX; nseg];
+    for (s, row) in rho.outer_iter().enumerate() {
+        for (r, b) in row.iter().zip(bwin.index_axis(Axis(0), 0).iter()) {
+            if *b > 0.0 {
+                rho_ref[s] = rho_ref[s].min(*r);
+            }
+        }
+    }
+    if rho_ref.iter().any(|r| *r == f64::MAX) {
+        obs.discard("no grid point inside the support of the perturbation");
+        return;
+    }
+    let phi: Array<f64, D::Larger> = field(nseg, &shape, |s, ix| case.pert.weights[ci[s]] * rho_ref[s] * window(ix));
+
+    let bulk_rho = Density::from_reduced(rho.clone());
+    let profile = DFTProfile::<D, Model>::new(grid.clone(), &su.bulk, None, Some(&bulk_rho), case.lanczos);
+    let conv = profile.convolver.clone();
+
+    // ---- classes ----
+    obs.class(format!("{:?}", kind));
+    obs.class(case.spec.label());
+    obs.class(format!("{}:{:?}", case.spec.label(), kind));
+    obs.class(format!("fmt-version={}", case.spec.opts.fmt));
+    obs.class(format!("n={}", case.spec.n()));
+    obs.class(format!("lanczos={:?}", case.lanczos));
+    obs.class(if p.osc { "profile:oscillating" } else { "profile:tanh" });
+    obs.class(if case.pert.weights.iter().filter(|w| **w != 0.0).count() > 1 {
+        "perturbation:mixed"
+    } else {
+        "perturbation:single-component"
+    });
+    if case.spec.has_association() {
+        obs.class("assoc");
+    }
+    if dft.bond_lengths(t).edge_count() > 0 {
+        obs.class("heterosegmented(bonds)");
+    }
+    let has_vec = dft.weight_functions(t).iter().any(|w| {
+        let [_, vc, _, vf] = w.as_slice();
+        !vc.is_empty() || !vf.is_empty()
+    });
+    if has_vec {
+        obs.class("vector-weights");
+    }
+
+    // spherical axis: natural measure 4 pi r^2 dr of the sine-transform pair; the grid's own
+    // weights are the exact shell volumes 4 pi (r^2 + dr^2/12) dr. Differences between the two
+    // discretisations are bounded rigorously by (dr^2/12) 4 pi dr sum |terms| (unweighted).
+    let sph = if kind == GridKind::Spherical {
+        let dr = lens[0] / shape[0] as f64;
+        let w = coords[0].mapv(|r| 4.0 * std::f64::consts::PI * r * r * dr);
+        Some((w, dr * dr / 12.0 * 4.0 * std::f64::consts::PI * dr))
+    } else {
+        None
+    };
+    let nat_inner = |a: &Array<f64, D::Larger>, b: &Array<f64, D::Larger>, w: &Array1<f64>| -> (f64, f64) {
+        let mut s = 0.0;
+        let mut sa = 0.0;
+        for (x, y) in a.outer_iter().zip(b.outer_iter()) {
+            for ((x, y), w) in x.iter().zip(y.iter()).zip(w.iter()) {
+                s += x * y * w;
+                sa += (x * y * w).abs();
+            }
+        }
+        (s, sa)
+    };
+
+    // =============== oracle (1): first variation ===============
+    let (_f0, g) = match dft.functional_derivative(t, &rho, &conv) {
+        Ok(r) => r,
+        Err(e) => {
+            obs.discard(format!("functional_derivative:{}", e.to_string().chars().take(40).collect::<String>()));
+            return;
+        }
+    };
+    if g.iter().any(|x| !x.is_finite()) {
+        obs.discard("non-finite functional derivative");
+        return;
+    }
+    let (a, _) = inner(&profile, &g, &phi);
+    let contribs = match contribution_derivatives::<D>(&dft, t, &rho, &grid, case.lanczos) {
+        Ok(c) => c,
+        Err(e) => {
+            obs.discard(format!("contributions:{}", e.chars().take(40).collect::<String>()));
+            return;
+        }
+    };
+    // the sum over the contributions reproduces the library total (checks the helper, and that
+    // the total is the sum of its parts); scale = sum_c sum_s int |dF_c/drho_s phi_s|
+    let mut scale = 0.0;
+    let mut a_sum = 0.0;
+    let mut scale_nat = 0.0;
+    let mut bound_own = 0.0; // rigorous bound on |own - natural| discretisation difference (spherical)
+    let mut f_abs = 0.0; // int sum_c |f_c|: roundoff scale of the integrated energy density
+    let mut scale_glob = 0.0; // polar axes: sum_c max |dF_c/drho| int |phi|
+    for c in &contribs {
+        let (ac, sc) = inner(&profile, &c.g, &phi);
+        a_sum += ac;
+        scale += sc;
+        f_abs += integ(&profile, c.f.mapv(f64::abs));
+        if kind.has_polar_axis() {
+            // The error of the quasi-discrete Hankel transform is relative to the largest values
+            // on the grid, not to the local ones (a perturbation on the dilute side of an interface
+            // feels the transform error of the dense side): scale with the sup-norm of dF_c/drho
+            let gmax = c.g.iter().fold(0.0f64, |m, x| m.max(x.abs()));
+            let phi_l1: f64 = phi.outer_iter().map(|row| integ(&profile, row.mapv(f64::abs))).sum();
+            scale_glob += gmax * phi_l1;
+        }
+        if let Some((w, cb)) = &sph {
+            scale_nat += nat_inner(&c.g, &phi, w).1;
+            let wphi = c.conv.weighted_densities(&phi).remove(0);
+            bound_own += cb * (abs_dot(&c.pd, &wphi) + abs_dot(&c.g, &phi));
+        }
+    }
+    obs.close_scaled("sum over contributions of int dF_c/drho phi = total", a_sum, a, 1e-10, scale);
+    // evaluations of the energy density along rho + eps phi (shared by the measures)
+    let cache: std::cell::RefCell<Vec<(f64, Array<f64, D>)>> = std::cell::RefCell::new(vec![]);
+    let f_at = |e: f64| -> Option<Array<f64, D>> {
+        if let Some((_, f)) = cache.borrow().iter().find(|(x, _)| *x == e) {
+            return Some(f.clone());
+        }
+        let r = &rho + &(&phi * e);
+        let (f, _) = dft.functional_derivative(t, &r, &conv).ok()?;
+        if f.iter().any(|x| !x.is_finite()) {
+            return None;
+        }
+        cache.borrow_mut().push((e, f.clone()));
+        Some(f)
+    };
+    let fe_own = |e: f64| -> Option<f64> { Some(integ(&profile, f_at(e)?)) };
+    let rtol_assoc = if case.spec.has_association() { TOL_VARIATION_ASSOC } else { TOL_VARIATION_EXACT };
+    let rl = max_kernel_radius(&dft, t) / lens[0];
+    let rtol1 = match kind {
+        GridKind::Polar | GridKind::Cylindrical => tol_polar(case.grid.n[0], rl),
+        _ => rtol_assoc,
+    };
+    let mut conclusive = false;
+    let report = |obs: &mut Obs, label: &str, a: f64, v: (DVerdict, String, Option<(f64, f64, f64)>), rtol: f64| -> bool {
+        obs.count();
+        if let Some((excess, err, s)) = v.2 {
+            if err <= 1e-5 * s {
+                note(&format!("variation ({label}) defect/scale {:?} [{akey}]", kind), excess / s);
+                note(&format!("variation ({label}) defect/tol {:?} [{akey}]", kind), excess / s / rtol);
+                note(&format!("variation ({label}) defect/scale by family {} {}", case.spec.label(), if exact { "exact geometries" } else { "curvilinear" }), excess / s);
+                if kind == GridKind::Spherical {
+                    note(&format!("spherical: variation ({label}) defect n<={}", case.grid.n[0].next_power_of_two()), excess / s);
+                }
+                if kind.has_polar_axis() {
+                    note(&format!("polar axis: variation defect / (Rmax/L)^2 {:?}", kind), excess / s / (rl * rl));
+                    note(&format!("polar axis: variation defect {:?} n<={}", kind, case.grid.n[0].next_power_of_two()), excess / s);
+                }
+                obs.class(format!("variation({label})-defect<=1e{}:{:?}", decade(excess / s), kind));
+            }
+        }
+        match v.0 {
+            DVerdict::Ok => true,
+            DVerdict::Inconclusive => {
+                obs.inconclusive(format!("variation({label}):{:?}", kind));
+                false
+            }
+            DVerdict::Mismatch => {
+                // localise: contribution by contribution (grid's own weights)
+                let mut loc = vec![];
+                for (k, c) in contribs.iter().enumerate() {
+                    let (ac, sc) = inner(&profile, &c.g, &phi);
+                    let fc = |e: f64| -> Option<f64> {
+                        let r = &rho + &(&phi * e);
+                        let cc = contribution_derivatives::<D>(&dft, t, &r, &grid, case.lanczos).ok()?;
+                        Some(integ(&profile, cc[k].f.clone()))
+                    };
+                    if let Some((dc, ec)) = ridders(&fc, 0.0, 0.1) {
+                        let s = sc.max(ac.abs()).max(dc.abs());
+                        if derivative_verdict(ac, dc, ec, s, rtol) == DVerdict::Mismatch {
+                            loc.push(format!("{}: {ac:e} vs {dc:e}", c.name));
+                        }
+                    }
+                }
+                obs.fail(format!(
+                    "first variation ({label}) [{:?} n={:?} lanczos={:?}] a = {a:e}: {} [contributions (own weights): {}]",
+                    kind,
+                    case.grid.n,
+                    case.lanczos,
+                    v.1,
+                    loc.join("; ")
+                ));
+                true
+            }
+        }
+    };
+    // grid's own integration weights (the statement of the property)
+    // F(eps) is a difference of integrals over the whole grid: roundoff ~ 1e-16 int |f| / h on the
+    // difference quotient; 1e-13 int |f| is admitted (matters only for perturbations that are
+    // tiny compared with the total energy, e.g. on the vapour side of an interface)
+    let noise = 1e-13 * f_abs;
+    obs.class(if scale > 1e-5 * f_abs { "perturbation>1e-5 of total energy" } else { "perturbation<1e-5 of total energy" });
+    let scale = scale.max(scale_glob);
+    let v_own = variation_verdict(a, scale, 1.05 * bound_own + noise, rtol1, &fe_own);
+    conclusive |= report(obs, "own weights", a, v_own, rtol1);
+    if let Some((w, _)) = &sph {
+        // natural measure of the spherical transform pair: exact like the Cartesian grids
+        let (a_nat, _) = nat_inner(&g, &phi, w);
+        let fe_nat = |e: f64| -> Option<f64> { Some(f_at(e)?.iter().zip(w.iter()).map(|(x, w)| x * w).sum()) };
+        // below 128 points the cells (up to 4.7 A) exceed the kernel radii and the mass sum of the
+        // boundary split loses its spectral accuracy (measured: 3.5e-6 worst at n = 64-127,
+        // <= 5.5e-11 for n >= 128)
+        let rtol_nat = if shape[0] < 128 {
+            TOL_VARIATION_COARSE_SPHERICAL
+        } else {
+            rtol_assoc.max(TOL_VARIATION_COARSE_SPHERICAL * (128.0 / shape[0] as f64).powi(8))
+        };
+        let v_nat = variation_verdict(a_nat, scale_nat, noise, rtol_nat, &fe_nat);
+        report(obs, "measure r^2", a_nat, v_nat, rtol_nat);
+        note("spherical: admitted own-vs-natural bound / scale", 1.05 * bound_own / scale);
+    }
+
+    // =============== oracle (2): adjointness of the two convolutions ===============
+    let frac = |x: f64| x - x.floor();
+    let cmax = if exact { 0.4 } else { 0.3 };
+    let psi_at = |row: usize, ix: &[usize], compact: bool| -> f64 {
+        let mut b = if row % 2 == 0 { 1.0 } else { -1.0 };
+        for a in 0..d {
+            let c = 0.3 + cmax * frac(case.psi[0] + 0.618_033_988_75 * (row + 3 * a) as f64);
+            let s = (0.4 + 0.6 * frac(case.psi[1] + 0.381_966 * (row + 5 * a) as f64)) * lens[a] / 12.0;
+            b *= bump((coords[a][ix[a]] - c * lens[a]) / s);
+        }
+        if !compact {
+            // Cartesian / periodic transforms are exact transposes for arbitrary fields
+            b += 0.3 + 0.2 * (std::f64::consts::PI * ((row % 4) + 1) as f64 * coords[0][ix[0]] / lens[0]).cos();
+        }
+        b
+    };
+    let tests: Vec<(&str, Array<f64, D::Larger>, bool)> = if exact {
+        vec![("compact", phi.clone(), true), ("full-profile", rho.clone(), false)]
+    } else {
+        vec![("compact", phi.clone(), true)]
+    };
+    // adjointness relative to the norms of the fields: Cartesian/periodic roundoff (measured
+    // <= 8e-16), polar axis measured <= 2.3e-4 (n < 1024) and <= 1.3e-5 (n >= 1024)
+    let tol2 = match kind {
+        GridKind::Polar | GridKind::Cylindrical => {
+            if case.grid.n[0] < 1024 {
+                0.02
+            } else {
+                0.005
+            }
+        }
+        _ => TOL_ADJOINT_EXACT,
+    };
+    for (tname, test, compact) in tests.iter() {
+        let wds = conv.weighted_densities(test);
+        let mut row0 = 0;
+        let psis: Vec<Array<f64, D::Larger>> = wds
+            .iter()
+            .map(|wd| {
+                let nr = wd.shape()[0];
+                let r0 = row0;
+                row0 += nr;
+                field(nr, &shape, |r, ix| psi_at(r0 + r, ix, *compact))
+            })
+            .collect();
+        let mut lhs = 0.0;
+        let mut sc = 0.0;
+        let mut raw = 0.0; // unweighted sum of |terms| (spherical bound)
+        for (psi, wd) in psis.iter().zip(wds.iter()) {
+            let (v, _) = inner(&profile, psi, wd);
+            lhs += v;
+            sc += norm_scale(&profile, psi, wd);
+            raw += abs_dot(psi, wd);
+        }
+        let fd = conv.functional_derivative(&psis);
+        let (rhs, _) = inner(&profile, &fd, test);
+        raw += abs_dot(&fd, test);
+        // scale: sum over rows of |psi_row|_2 |n_row|_2 (Cauchy-Schwarz bound of each term). The
+        // integral of |psi n| itself can be arbitrarily small when two compact fields barely
+        // overlap, while roundoff and transform errors are relative to the fields.
+        let s = sc.max(norm_scale(&profile, &fd, test));
+        let allow = sph.as_ref().map(|(_, cb)| 1.05 * cb * raw).unwrap_or(0.0);
+        let defect = ((lhs - rhs).abs() - allow).max(0.0) / s;
+        note(&format!("adjoint defect/scale {:?} [{tname}]", kind), defect);
+        if kind.has_polar_axis() {
+            note(&format!("polar axis: adjoint defect / (Rmax/L)^2 {:?}", kind), defect / (rl * rl));
+        }
+        note(&format!("adjoint defect/tol {:?} [{tname}]", kind), defect / tol2);
+        obs.class(format!("adjoint-defect<=1e{}:{:?}", decade(defect), kind));
+        obs.count();
+        if !(defect <= tol2) {
+            // localise: row by row
+            let mut loc = vec![];
+            'outer: for (b, wd) in wds.iter().enumerate() {
+                for r in 0..wd.shape()[0] {
+                    let only: Vec<Array<f64, D::Larger>> = psis
+                        .iter()
+                        .enumerate()
+                        .map(|(bb, ps)| {
+                            let mut z = Array::zeros(ps.raw_dim());
+                            if bb == b {
+                                z.index_axis_mut(Axis(0), r).assign(&ps.index_axis(Axis(0), r));
+                            }
+                            z
+                        })
+                        .collect();
+                    let (l1, _) = inner(&profile, &only[b], wd);
+                    let s1 = norm_scale(&profile, &only[b], wd);
+                    let fd1 = conv.functional_derivative(&only);
+                    let (r1, _) = inner(&profile, &fd1, test);
+                    let s2 = norm_scale(&profile, &fd1, test);
+                    let al = sph.as_ref().map(|(_, cb)| 1.05 * cb * (abs_dot(&only[b], wd) + abs_dot(&fd1, test))).unwrap_or(0.0);
+                    let d1 = ((l1 - r1).abs() - al).max(0.0) / s1.max(s2).max(1e-300);
+                    if d1 > tol2 {
+                        loc.push(format!("contribution {b} row {r}: {l1:e} vs {r1:e} (defect {d1:e})"));
+                        if loc.len() >= 6 {
+                            break 'outer;
+                        }
+                    }
+                }
+            }
+            obs.fail(format!(
+                "adjointness [{:?} n={:?} lanczos={:?} test={tname}]: sum_k <psi_k, n_k[rho]> = {lhs:e} vs <Conv^T psi, rho> = {rhs:e} (defect {defect:e} > {tol2:e}, admitted bound {allow:e}) [{}]",
+                kind,
+                case.grid.n,
+                case.lanczos,
+                loc.join("; ")
+            ));
+        }
+        // spherical transform pair in its natural measure r^2: exact to roundoff
+        if let Some((w, _)) = &sph {
+            let mut l = 0.0;
+            let mut sl = 0.0;
+            for (psi, wd) in psis.iter().zip(wds.iter()) {
+                let (v, _) = nat_inner(psi, wd, w);
+                l += v;
+                for (x, y) in psi.outer_iter().zip(wd.outer_iter()) {
+                    let nx: f64 = x.iter().zip(w.iter()).map(|(x, w)| x * x * w).sum();
+                    let ny: f64 = y.iter().zip(w.iter()).map(|(y, w)| y * y * w).sum();
+                    sl += (nx * ny).sqrt();
+                }
+            }
+            let (r, _) = nat_inner(&fd, test, w);
+            let dn = (l - r).abs() / sl;
+            note("adjoint defect/scale Spherical natural measure r^2", dn);
+            obs.class(format!("adjoint-natural-defect<=1e{}", decade(dn)));
+            obs.ensure(dn <= TOL_ADJOINT_NATURAL, || {
+                format!("adjointness in the natural measure r^2 [Spherical n={:?}]: {l:e} vs {r:e} (defect {dn:e})", case.grid.n)
+            });
+        }
+    }
+
+    // ---- non-trivial: the profile varies by > 10 % over the support of phi, the variation is
+    // visible against its scale, the oracle was conclusive ----
+    let mut lo = f64::MAX;
+    let mut hi = 0.0f64;
+    for (s, row) in rho.outer_iter().enumerate() {
+        if case.pert.weights[ci[s]] == 0.0 {
+            continue;
+        }
+        for (r, b) in row.iter().zip(bwin.index_axis(Axis(0), 0).iter()) {
+            if *b > 1e-3 {
+                lo = lo.min(*r);
+                hi = hi.max(*r);
+            }
+        }
+    }
+    let varies = hi > 1.1 * lo;
+    obs.class(if varies { "profile-varies>10%-on-support" } else { "profile-flat-on-support" });
+    if varies && conclusive && a.abs() > 1e-6 * scale {
+        obs.nontrivial();
+    }
+}
+
+pub fn check_var(case: &VarCase, obs: &mut Obs) {
+    let Some(su) = var_setup(&case.spec, case.tau, &case.prof.x_hi, case.prof.f_hi, obs) else { return };
+    match case.grid.kind.dim() {
+        1 => check_variation::<Ix1>(case, obs, &su),
+        2 => check_variation::<Ix2>(case, obs, &su),
+        _ => check_variation::<Ix3>(case, obs, &su),
+    }
+}
+
+// =======================================================================================
+// Part B: adjointness per weight-function shape (lattice)
+// =======================================================================================
+#[derive(Serialize, Deserialize, Clone, Debug)]
+pub struct ShapeCase {
+    pub kind: GridKind,
+    pub n: usize,
+    pub len: f64,
+    /// Theta, Delta, KR0, KR1, DeltaVec, Identity (normalised Delta of radius 1e-6: the
+    /// transform pair alone)
+    pub shape: String,
+    pub lanczos: Option<i32>,
+    pub radius: f64,
+}
+
+fn fmt_bulk() -> State<Model> {
+    let spec = ModelSpec {
+        family: Family::FmtFunctional,
+        pure: vec![json!({"sigma": 3.0})],
+        binary: vec![],
+        seg: None,
+        opts: Opts::default(),
+        source: "fixed".into(),
+    };
+    let m = spec.build().unwrap();
+    State::new_nvt(
+        &m,
+        300.0 * KELVIN,
+        Volume::from_reduced(1000.0),
+        &Moles::from_reduced(arr1(&[1.0])),
+    )
+    .unwrap()
+}
+
+pub fn shape_items() -> Vec<ShapeCase> {
+    let mut v = vec![];
+    for kind in [GridKind::Cartesian1, GridKind::Spherical, GridKind::Polar] {
+        let ns: &[usize] = if kind == GridKind::Polar {
+            &[256, 512, 1024, 2048, 4096]
+        } else {
+            &[64, 100, 256, 512, 1024, 2048, 4096]
+        };
+        for &n in ns {
+            for len in [20.0, 50.0, 150.0] {
+                for shape in ["Theta", "Delta", "KR0", "KR1", "DeltaVec", "Identity"] {
+                    for lanczos in [None, Some(1)] {
+                        v.push(ShapeCase {
+                            kind,
+                            n,
+                            len,
+                            shape: shape.into(),
+                            lanczos,
+                            radius: 1.9,
+                        });
+                    }
+                }
+            }
+        }
+    }
+    v
+}
+
+pub fn check_shape(case: &ShapeCase, obs: &mut Obs) {
+    let gs = GridSpec {
+        kind: case.kind,
+        n: vec![case.n],
+        len: vec![case.len],
+        angles: vec![],
+        offset: 0.0,
+    };
+    let grid = gs.build();
+    let r = grid.axes()[0].grid.clone();
+    let wf = match case.shape.as_str() {
+        "Theta" => WeightFunction::new_scaled(arr1(&[case.radius]), WeightFunctionShape::Theta),
+        "Delta" => WeightFunction::new_scaled(arr1(&[case.radius]), WeightFunctionShape::Delta),
+        "KR0" => WeightFunction::new_unscaled(arr1(&[case.radius]), WeightFunctionShape::KR0),
+        "KR1" => WeightFunction::new_unscaled(arr1(&[case.radius]), WeightFunctionShape::KR1),
+        "DeltaVec" => WeightFunction {
+            prefactor: arr1(&[1.0 / (4.0 * std::f64::consts::PI * case.radius * case.radius)]),
+            kernel_radius: arr1(&[case.radius]),
+            shape: WeightFunctionShape::DeltaVec,
+        },
+        _ => WeightFunction::new_scaled(arr1(&[1e-6]), WeightFunctionShape::Delta),
+    };
+    let wfi = WeightFunctionInfo::new(arr1(&[0usize]), false).add(wf, false);
+    let conv: Arc<dyn Convolver<f64, Ix1>> = ConvolverFFT::plan(&grid, &[wfi], case.lanczos);
+    let bulk = fmt_bulk();
+    let profile = DFTProfile::<Ix1, Model>::new(grid.clone(), &bulk, None, None, None);
+    let l = case.len;
+    // two overlapping compact fields of different width and position
+    let rho: Array2<f64> = field(1, &[case.n], |_, ix| bump((r[ix[0]] - 0.52 * l) / (l / 14.0)));
+    let psi: Array2<f64> = field(1, &[case.n], |_, ix| bump((r[ix[0]] - 0.45 * l) / (l / 20.0)) - 0.5 * bump((r[ix[0]] - 0.6 * l) / (l / 30.0)));
+    let wd = conv.weighted_densities(&rho).remove(0);
+    let (lhs, _) = inner(&profile, &psi, &wd);
+    let fd = conv.functional_derivative(&[psi.clone()]);
+    let (rhs, _) = inner(&profile, &fd, &rho);
+    let s = norm_scale(&profile, &psi, &wd).max(norm_scale(&profile, &fd, &rho));
+    let defect = (lhs - rhs).abs() / s;
+    obs.class(format!("{:?}:{}", case.kind, case.shape));
+    obs.class(format!("{:?}:{}:defect<=1e{}", case.kind, case.shape, decade(defect)));
+    note(&format!("shape {:?} {:9} n={:4}", case.kind, case.shape, case.n), defect);
+    // spherical: own weights 4 pi (r^2 + dr^2/12) dr vs the natural measure 4 pi r^2 dr of the
+    // transform pair: the difference is bounded by (dr^2/12) 4 pi dr sum |terms| (unweighted)
+    let allow = if case.kind == GridKind::Spherical {
+        let dr = case.len / case.n as f64;
+        1.05 * dr * dr / 12.0 * 4.0 * std::f64::consts::PI * dr * (abs_dot(&psi, &wd) + abs_dot(&fd, &rho))
+    } else {
+        0.0
+    };
+    let tol = if case.kind == GridKind::Polar {
+        if case.n >= 512 {
+            POLAR_PLATEAU
+        } else {
+            tol_polar(case.n, 0.0)
+        }
+    } else {
+        TOL_ADJOINT_EXACT
+    };
+    let excess = ((lhs - rhs).abs() - allow).max(0.0) / s;
+    if case.kind == GridKind::Spherical {
+        note(&format!("shape Spherical(excess over bound) {:9} n={:4}", case.shape, case.n), excess);
+    }
+    obs.ensure(excess <= tol, || {
+        format!("adjointness of one weight function [{:?} {} n={} L={} lanczos={:?}]: {lhs:e} vs {rhs:e} (defect {defect:e} > {tol:e})", case.kind, case.shape, case.n, case.len, case.lanczos)
+    });
+    if case.kind == GridKind::Spherical {
+        let mut a = 0.0;
+        let mut sa = 0.0;
+        let mut b = 0.0;
+        for i in 0..case.n {
+            let w = r[i] * r[i];
+            a += psi[[0, i]] * wd[[0, i]] * w;
+            sa += (psi[[0, i]] * wd[[0, i]] * w).abs();
+            b += fd[[0, i]] * rho[[0, i]] * w;
+        }
+        let dn = (a - b).abs() / sa;
+        note(&format!("shape Spherical(natural r^2) {:9} n={:4}", case.shape, case.n), dn);
+        obs.ensure(dn <= TOL_ADJOINT_NATURAL, || {
+            format!("adjointness in the natural measure [Spherical {} n={} L={}]: defect {dn:e}", case.shape, case.n, case.len)
+        });
+    }
+    if s > 0.0 && lhs.abs() > 1e-3 * s {
+        obs.nontrivial();
+    }
+}
+
+// =======================================================================================
+// Part C: one Newton step vs the numerical Jacobian of the Euler-Lagrange residual
+// =======================================================================================
+#[derive(Serialize, Deserialize, Clone, Debug)]
+pub struct StepCase {
+    pub grid: GridSpec,
+    pub spec: ModelSpec,
+    pub state: StateSpec,
+    pub lanczos: Option<i32>,
+    /// relative amplitude, period (fraction of L) and phase of the initial perturbation
+    pub amp: f64,
+    pub period: f64,
+    pub phase: f64,
+    /// Newton in rho (false) or ln rho (true)
+    pub log: bool,
+    /// amplitude (k_B T) of a smooth external potential
+    #[serde(default)]
+    pub vext: f64,
+    /// hard region (external potential = 50 k_B T, where the library freezes the density) beyond 0.8 L
+    #[serde(default)]
+    pub wall: bool,
+    /// > 0: the profile is a Pore1D (LJ 9-3 wall of this energy parameter, K) of the grid's
+    /// geometry, pre-relaxed by `relax` Anderson iterations, instead of the synthetic profile
+    #[serde(default)]
+    pub pore_eps: f64,
+    #[serde(default)]
+    pub relax: usize,
+}
+
+pub fn decode_step(g: &mut Gen) -> StepCase {
+    let kinds = [GridKind::Cartesian1, GridKind::Spherical, GridKind::Polar];
+    let mut grid = gen_grid(g, &kinds, 400, 8, 8);
+    grid.offset = 0.0;
+    grid.n[0] = grid.n[0].max(48);
+    if grid.kind == GridKind::Polar {
+        grid.n[0] = 512;
+    }
+    let mut spec = gen_model(
+        g,
+        &GenCfg {
+            families: FUNCTIONALS.to_vec(),
+            min_comp: 1,
+            max_comp: 2,
+        },
+    );
+    acyclic_gc(&mut spec);
+    let mut state = gen_state(g, spec.n());
+    // mechanically stable fluid states: supercritical or liquid-like
+    state.tau = g.range(0.6, 2.0);
+    state.f_eta = g.range(0.05, 0.85);
+    let lanczos = [None, Some(1), Some(2)][g.index(3)];
+    let amp = g.range(0.02, 0.12);
+    let period = g.range(0.05, 0.5);
+    let phase = g.range(0.0, 6.28);
+    let log = g.bool(0.5);
+    let vext = if g.bool(0.6) { g.range(0.1, 0.5) } else { 0.0 };
+    let wall = g.bool(0.15);
+    let pore_eps = if g.bool(0.4) { g.range(20.0, 100.0) } else { 0.0 };
+    let relax = 8 + g.index(32);
+    if pore_eps > 0.0 {
+        // supercritical fluid in the pore: the Anderson pre-relaxation is reliable
+        state.tau = state.tau.max(1.05);
+        state.f_eta = state.f_eta.min(0.6);
+    }
+    StepCase {
+        grid,
+        spec,
+        state,
+        lanczos,
+        amp,
+        period,
+        phase,
+        log,
+        vext,
+        wall,
+        pore_eps,
+        relax,
+    }
+}
+
+fn l2(a: &Array2<f64>) -> f64 {
+    a.iter().map(|x| x * x).sum::<f64>().sqrt()
+}
+
+pub fn check_step(case: &StepCase, obs: &mut Obs) {
+    let kind = case.grid.kind;
+    obs.class(format!("{:?}", kind));
+    obs.class(case.spec.label());
+    obs.class(if case.log { "newton:log" } else { "newton:linear" });
+    obs.class(format!("n={}", case.spec.n()));
+    let Some(bulk) = build_bulk(&case.spec, &case.state, obs) else { return };
+    // the perturbation must stay a perturbation: structure factor at k -> 0 of the bulk
+    let s0 = {
+        let st = &bulk.state;
+        let dpdrho = st.dp_drho(feos::core::Contributions::Total).to_reduced();
+        bulk.t / dpdrho
+    };
+    if !(s0 > 0.0 && s0 < 3.0) {
+        obs.class("bulk unstable or too compressible: skipped");
+        return;
+    }
+    let dft = bulk.state.eos.clone();
+    if dft.bond_lengths(bulk.t).edge_count() > 0 {
+        obs.class("heterosegmented(bonds)");
+    }
+    if case.spec.has_association() {
+        obs.class("assoc");
+    }
+    let grid = case.grid.build();
+    let r = grid.axes()[0].grid.clone();
+    let n = r.len();
+    let l = case.grid.len[0];
+    let nseg = bulk.rho_seg.len();
+    let two_pi = 2.0 * std::f64::consts::PI;
+    let vext: Array2<f64> = field(nseg, &[n], |s, ix| {
+        if case.wall && r[ix[0]] > 0.8 * l {
+            50.0
+        } else {
+            case.vext * (two_pi * r[ix[0]] / (0.37 * l) + s as f64).cos()
+        }
+    });
+    let rho0: Array2<f64> = field(nseg, &[n], |s, ix| {
+        bulk.rho_seg[s] * (-vext[[s, ix[0]]]).exp() * (1.0 + case.amp * (two_pi * r[ix[0]] / (case.period * l) + case.phase + 0.7 * s as f64).cos())
+    });
+    if case.vext != 0.0 {
+        obs.class("external potential");
+    }
+    if case.wall {
+        obs.class("hard region (potential 50 kT)");
+    }
+    let mut profile = DFTProfile::<Ix1, Model>::new(grid, &bulk.state, Some(vext.clone()), Some(&Density::from_reduced(rho0.clone())), case.lanczos);
+    let mut rho0 = rho0;
+    if case.pore_eps > 0.0 {
+        // a physical pore: Pore1D of the same geometry with a Lennard-Jones 9-3 wall
+        let geometry = match kind {
+            GridKind::Cartesian1 => Geometry::Cartesian,
+            GridKind::Spherical => Geometry::Spherical,
+            _ => Geometry::Cylindrical,
+        };
+        let pot = ExternalPotential::LJ93 {
+            sigma_ss: 3.0,
+            epsilon_k_ss: case.pore_eps,
+            rho_s: 0.08,
+        };
+        let size = l.clamp(15.0, 40.0);
+        let pore = Pore1D::new(geometry, size * ANGSTROM, pot, Some(n), None);
+        let Ok(mut pp) = pore.initialize(&bulk.state, None, None) else {
+            obs.discard("pore initialisation failed");
+            return;
+        };
+        if case.relax > 0 {
+            let pre = DFTSolver::new(None).anderson_mixing(Some(true), Some(case.relax), Some(1e-6), None, None);
+            if pp.profile.solve(Some(&pre), true).is_err() {
+                obs.discard(format!("pre-relaxation returned an error [{:?} {}]", kind, case.spec.label()));
+                return;
+            }
+        }
+        obs.class(format!("Pore1D:{:?}", kind));
+        rho0 = pp.profile.density.to_reduced();
+        profile = pp.profile;
+    }
+    let res_at = |p: &mut DFTProfile<Ix1, Model>, rho: &Array2<f64>| -> Option<Array2<f64>> {
+        p.density = Density::from_reduced(rho.clone());
+        let (res, _, _) = p.residual(case.log).ok()?;
+        res.iter().all(|x| x.is_finite()).then_some(res)
+    };
+    let Some(res0) = res_at(&mut profile, &rho0) else {
+        obs.discard(format!(
+            "residual of the initial profile failed [{}{} {}]",
+            if case.pore_eps > 0.0 { "Pore1D" } else { "synthetic" },
+            if case.wall && case.pore_eps == 0.0 { ", frozen region" } else { "" },
+            case.spec.label()
+        ));
+        return;
+    };
+    let lhs = if case.log { &rho0 * &res0 } else { res0.clone() };
+    let lhs_norm = l2(&lhs);
+    let res0_norm = l2(&res0);
+    let rho_norm = l2(&rho0);
+    if !(lhs_norm > 1e-9 * rho_norm) {
+        obs.class("residual of the perturbed profile vanishes: skipped");
+        return;
+    }
+    // GMRES stops at tol*1e-2 (absolute, l2): ask for 1e-9 of the right-hand side
+    let tol = 1e-7 * lhs_norm;
+    let solver = DFTSolver::new(None).newton(Some(case.log), Some(1), Some(600), Some(tol));
+    let mut p2 = profile.clone();
+    p2.density = Density::from_reduced(rho0.clone());
+    if let Err(e) = p2.solve(Some(&solver), true) {
+        obs.discard(format!("newton step failed:{}", e.to_string().chars().take(40).collect::<String>()));
+        return;
+    }
+    let Some(log) = p2.solver_log.clone() else {
+        obs.fail("no solver log after a Newton step");
+        return;
+    };
+    let names = log.solver();
+    let resid = log.residual();
+    let gm: Vec<f64> = names.iter().zip(resid.iter()).filter(|(s, _)| **s == "GMRES").map(|(_, r)| *r).collect();
+    if gm.len() < 2 {
+        obs.class("newton returned without a step: skipped");
+        return;
+    }
+    let g_last = *gm.last().unwrap();
+    obs.class(format!("gmres-iterations<={}", ((gm.len() - 1).div_ceil(50)) * 50));
+    if !(g_last <= tol * 1e-2 * 1.000001) {
+        obs.inconclusive("gmres-not-converged");
+        return;
+    }
+    let rho1 = p2.density.to_reduced();
+    let step = &rho1 - &rho0;
+    let rel_step = step.iter().zip(rho0.iter()).map(|(d, r)| (d / r).abs()).fold(0.0, f64::max);
+    note("newton-step: largest relative step", if rel_step < 0.8 { rel_step } else { 0.0 });
+    if !(rel_step < 0.8) {
+        obs.discard(format!(
+            "newton step larger than 0.8 rho (abs() in the solver may have flipped a sign) [{}{}]",
+            if case.pore_eps > 0.0 { "Pore1D" } else { "synthetic" },
+            if case.wall && case.pore_eps == 0.0 { ", frozen region" } else { "" }
+        ));
+        return;
+    }
+    // numerical directional derivative of the residual along the step (Richardson, h = 1/2, 1/4, 1/8)
+    let mut dd: Vec<Array2<f64>> = vec![];
+    for h in [0.5, 0.25, 0.125] {
+        let (Some(rp), Some(rm)) = (
+            res_at(&mut profile, &(&rho0 + &(&step * h))),
+            res_at(&mut profile, &(&rho0 - &(&step * h))),
+        ) else {
+            obs.inconclusive("neighbour residual failed");
+            return;
+        };
+        dd.push((rp - rm) / (2.0 * h));
+    }
+    let r1 = (&dd[1] * 4.0 - &dd[0]) / 3.0;
+    let r2 = (&dd[2] * 4.0 - &dd[1]) / 3.0;
+    let rr = (&r2 * 16.0 - &r1) / 15.0;
+    let err = l2(&(&rr - &r2)) / res0_norm;
+    let defect = l2(&(&res0 + &rr)) / res0_norm;
+    note(&format!("newton-step defect {:?}", kind), if err <= 1e-5 { defect } else { 0.0 });
+    note("newton-step richardson error (conclusive cases)", if err <= 1e-5 { err } else { 0.0 });
+    obs.count();
+    if !(err <= 1e-5) {
+        obs.inconclusive("richardson error of the numerical Jacobian");
+        return;
+    }
+    obs.class(format!("newton-step-defect<=1e{}", decade(defect)));
+    let tol_step = (50.0 * err).max(TOL_STEP);
+    obs.ensure(defect <= tol_step, || {
+        format!(
+            "Newton equation [{:?} n={} log={}]: |res + d res/d eps (rho + eps*step)| / |res| = {defect:e} (numerical error {err:e}, GMRES residual {:e} of {lhs_norm:e}, {} GMRES iterations)",
+            kind,
+            n,
+            case.log,
+            g_last,
+            gm.len() - 1
+        )
+    });
+    if res0_norm > 1e-6 * rho_norm {
+        obs.nontrivial();
+    }
+}
+const TOL_STEP: f64 = 1e-6;
+
+// =======================================================================================
+// Part D: quadratic convergence of the Newton solver (black box, solver_log)
+// =======================================================================================
+#[derive(Serialize, Deserialize, Clone, Debug)]
+pub struct ConvCase {
+    pub spec: ModelSpec,
+    pub state: StateSpec,
+    /// 0 slit, 1 cylindrical, 2 spherical pore, 3 planar vapour-liquid interface (pure)
+    pub system: u8,
+    pub size: f64,
+    pub n: usize,
+    pub eps_ss: f64,
+    pub log: bool,
+}
+
+pub fn decode_conv(g: &mut Gen) -> ConvCase {
+    // planar interfaces are not used: their translation mode makes the Newton Jacobian nearly
+    // singular (measured: residuals jump from 1e-8 back to 1e-4 between iterations)
+    let system = g.index(3) as u8;
+    let mut spec = gen_model(
+        g,
+        &GenCfg {
+            families: FUNCTIONALS.to_vec(),
+            min_comp: 1,
+            max_comp: if system == 3 { 1 } else { 2 },
+        },
+    );
+    acyclic_gc(&mut spec);
+    let mut state = gen_state(g, spec.n());
+    // supercritical fluids: no capillary condensation, Anderson pre-relaxation is reliable
+    state.tau = if system == 3 { g.range(0.6, 0.9) } else { g.range(1.05, 2.0) };
+    state.f_eta = g.range(0.02, 0.6);
+    let n = match system {
+        1 => 512,
+        _ => 128 + g.index(385),
+    };
+    ConvCase {
+        spec,
+        state,
+        system,
+        size: g.range(15.0, 40.0),
+        n,
+        eps_ss: g.range(20.0, 150.0),
+        log: g.bool(0.25),
+    }
+}
+
+/// asymptotic regime of Newton: residuals below 1e-3 (relative to the density scale)
+const NEWTON_ASYMPTOTIC: f64 = 1e-3;
+/// floor of the relative residual (GMRES stops at 1e-13 absolute, roundoff)
+const NEWTON_FLOOR: f64 = 1e-9;
+/// lowest admitted observed order of convergence
+const NEWTON_ORDER: f64 = 1.1;
+
+pub fn check_conv(case: &ConvCase, obs: &mut Obs) {
+    obs.class(case.spec.label());
+    obs.class(["slit pore", "cylindrical pore", "spherical pore", "planar interface"][case.system as usize]);
+    obs.class(if case.log { "newton:log" } else { "newton:linear" });
+    let solver = DFTSolver::new(None)
+        .anderson_mixing(Some(true), Some(80), Some(1e-3), None, None)
+        .newton(Some(case.log), Some(12), Some(400), Some(1e-12));
+    let (log, rho_scale) = if case.system == 3 {
+        if case.spec.family == Family::FmtFunctional {
+            obs.class("hard spheres have no vapour-liquid interface: skipped");
+            return;
+        }
+        let Ok(model) = case.spec.build() else {
+            obs.discard("build");
+            return;
+        };
+        let tc = pure_tc(&case.spec, &model, 0);
+        let t = (case.state.tau * tc).max(if case.spec.family == Family::SaftVRQMieFunctional { 20.0 } else { 0.0 });
+        let Ok(vle) = PhaseEquilibrium::pure(&model, t * KELVIN, None, Default::default()) else {
+            obs.discard("no vapour-liquid equilibrium");
+            return;
+        };
+        let mut pi = PlanarInterface::from_tanh(&vle, case.n, 4.0 * case.size * ANGSTROM, tc * KELVIN, false);
+        if pi.profile.solve(Some(&solver), true).is_err() {
+            obs.discard("interface solver returned an error");
+            return;
+        }
+        (pi.profile.solver_log.clone(), vle.liquid().density.to_reduced())
+    } else {
+        let Some(bulk) = build_bulk(&case.spec, &case.state, obs) else { return };
+        let geometry = [Geometry::Cartesian, Geometry::Cylindrical, Geometry::Spherical][case.system as usize];
+        let pot = ExternalPotential::LJ93 {
+            sigma_ss: 3.0,
+            epsilon_k_ss: case.eps_ss,
+            rho_s: 0.08,
+        };
+        let pore = Pore1D::new(geometry, case.size * ANGSTROM, pot, Some(case.n), None);
+        let Ok(mut pp) = pore.initialize(&bulk.state, None, None) else {
+            obs.discard("pore initialisation failed");
+            return;
+        };
+        if pp.profile.solve(Some(&solver), true).is_err() {
+            obs.discard("pore solver returned an error");
+            return;
+        }
+        let rmax = pp.profile.density.to_reduced().iter().fold(0.0f64, |a, b| a.max(*b));
+        (pp.profile.solver_log.clone(), rmax)
+    };
+    let Some(log) = log else {
+        obs.fail("no solver log");
+        return;
+    };
+    let names = log.solver();
+    let resid = log.residual();
+    if std::env::var("C17_DEBUG").is_ok() {
+        let mut last = "";
+        let mut cnt = 0;
+        for (s, r) in names.iter().zip(resid.iter()) {
+            if *s == "GMRES" && last == "GMRES" && std::env::var("C17_DEBUG").as_deref() != Ok("2") {
+                cnt += 1;
+                if cnt % 25 != 0 {
+                    continue;
+                }
+            } else {
+                cnt = 0;
+            }
+            eprintln!("{s:24} {r:e}");
+            last = s;
+        }
+    }
+    // Newton residuals, and for each Newton iteration whether its GMRES run converged (tol*1e-2)
+    let mut newton: Vec<(f64, bool)> = vec![];
+    let mut last_gmres: Option<f64> = None;
+    for (s, r) in names.iter().zip(resid.iter()) {
+        if s.starts_with("Newton") {
+            if let (Some(g), Some(prev)) = (last_gmres, newton.last_mut()) {
+                prev.1 = g <= 1e-14 * 1.000001;
+            }
+            newton.push((*r / rho_scale, false));
+            last_gmres = None;
+        } else if *s == "GMRES" {
+            last_gmres = Some(*r);
+        }
+    }
+    if newton.len() < 2 {
+        obs.class("anderson converged or failed before Newton started");
+        return;
+    }
+    let lk = if case.log { "log" } else { "linear" };
+    // The residual norm of the library includes the grid points whose density is frozen (external
+    // potential >= 50 k_B T): rho_b exp(-(50 + ...)/m) there, a plateau of the sequence that is
+    // not related to Newton's convergence. The convergence phase ends at twice that plateau.
+    let plateau = newton.iter().map(|x| x.0).fold(f64::MAX, f64::min);
+    // a plateau is accepted as such only if the run stagnates on it (last two residuals within 5 %)
+    let n_it = newton.len();
+    let stagnated = (newton[n_it - 1].0 - newton[n_it - 2].0).abs() <= 0.05 * newton[n_it - 1].0;
+    let floor = if stagnated { NEWTON_FLOOR.max(2.0 * plateau) } else { NEWTON_FLOOR };
+    // observed order of convergence from the last three residuals above the floor of a run that
+    // reached the floor: p = ln(r3/r2) / ln(r2/r1); quadratic convergence gives p -> 2, an inexact
+    // Jacobian gives p -> 1. Judged only if the three residuals are in the asymptotic regime
+    // (<= 1e-3 of the density scale), strictly decreasing, and their GMRES runs converged.
+    let Some(e) = newton.iter().position(|x| x.0 <= floor) else {
+        obs.class("Newton did not reach the floor within max_iter: no verdict");
+        return;
+    };
+    if e < 3 {
+        obs.class("fewer than three Newton residuals above the floor: no verdict");
+        return;
+    }
+    let (r1, g1) = newton[e - 3];
+    let (r2, g2) = newton[e - 2];
+    let (r3, _) = newton[e - 1];
+    if !(r1 <= NEWTON_ASYMPTOTIC && r1 > r2 && r2 > r3) {
+        obs.class("last three residuals not monotone inside the asymptotic regime: no verdict");
+        return;
+    }
+    if !(g1 && g2) {
+        obs.class("gmres not converged inside Newton: no verdict");
+        return;
+    }
+    let order = (r3 / r2).ln() / (r2 / r1).ln();
+    note(&format!("newton({lk}): lowest observed order of convergence (as 2 - p)"), 2.0 - order);
+    obs.class(format!("newton({lk}) order>={:.1}", (order * 5.0).floor() / 5.0));
+    if case.log {
+        // Newton in ln(rho): the step is an exact Newton step (part newton-step), but the solver
+        // applies abs() to rho + step; where the logarithmic residual is large (steep walls) the
+        // update is reflected and the iteration converges only linearly (measured: factors
+        // 0.02-0.25 per iteration for chain molecules in slit pores). Observed, not asserted.
+        obs.class(if order >= NEWTON_ORDER { "newton(log): superlinear" } else { "newton(log): linear (observed only)" });
+        return;
+    }
+    obs.count();
+    obs.ensure(order >= NEWTON_ORDER, || {
+        format!(
+            "Newton convergence is not quadratic [{} {} log={}]: last residuals above the floor {r1:e} -> {r2:e} -> {r3:e}, observed order {order:.3} < {NEWTON_ORDER}; Newton sequence {:?}",
+            case.spec.label(),
+            ["slit", "cylindrical", "spherical", "interface"][case.system as usize],
+            case.log,
+            newton.iter().map(|x| x.0).collect::<Vec<_>>()
+        )
+    });
+    obs.class("order of convergence judged");
+    obs.nontrivial();
+}
+
+// =======================================================================================
+fn env(k: &str, d: u32) -> u32 {
+    std::env::var(k).ok().and_then(|s| s.parse().ok()).unwrap_or(d)
+}
+
+pub fn run(ctx: &Ctx) {
+    ctx.set_rule("variation (sampled): grid (Cartesian1/Spherical 64-4096 points, Polar 512-4096, Cartesian2/Periodical2 <= 48 per axis, Cylindrical 512-768 x 8-12, Cartesian3/Periodical3 <= 14 per axis; lengths 10-300 A, curvilinear axes 60-300 A; Lanczos None/1/2; 1-D grids twice as likely) x functional (PcSaft, FMT, gc-PC-SAFT (heterosegmented, acyclic), PeTS, SAFT-VRQ Mie through feos::ResidualModel; 3 FMT versions; 1-3 components) x T (0.5-1.6 T*) x smooth positive profile (tanh interface between 1e-4..0.05 and 0.3..0.85 of the maximum density with different compositions on both sides, or damped oscillation of amplitude 5-40 % around the dense value; per-segment shifts; cosine modulation along the other axes) x perturbation phi_s = w_c rho_ref_s B(r), B a C^3 bump of compact support centred at 0.3-0.7 L (0.3-0.6 L on curvilinear axes) with half-width <= L/4 (exactly zero at both boundaries), rho_ref_s the smallest density on the support, one component or mixed. Non-trivial: the density varies by > 10 % over the support of phi, |int dF/drho phi| > 1e-6 of its scale and the Ridders oracle was conclusive. shapes (lattice, exhaustive over its finite set): 3 one-dimensional geometries x 5-7 sizes x 3 lengths x 6 kernels (Theta, Delta, KR0, KR1, DeltaVec, identity) x 2 Lanczos settings, two overlapping compact fields. newton-step (sampled): 1-D grids 48-400 points (Polar 512), functionals as above (1-2 components), stable bulk states (T/(dp/drho) < 3), profile = bulk x exp(-V) x cosine perturbation of 2-12 % with optional smooth external potential (<= 1 kT) and optional frozen region (V = 50 kT beyond 0.8 L), or a Pore1D (LJ 9-3) profile of the same geometry pre-relaxed by 8-39 Anderson iterations (supercritical); Newton in rho or ln rho; non-trivial if the initial residual exceeds 1e-6 rho and both GMRES and the numerical Jacobian converged. newton-convergence (sampled): LJ 9-3 pores of 15-40 A (slit, cylindrical, spherical), supercritical fluids, Anderson pre-relaxation to 1e-3 then Newton; non-trivial if the order of convergence could be judged. Distinct by hash of the canonical case JSON.");
+    ctx.assume("oracle (1): Ridders (oracle::ridders, three initial steps) in eps of integrate(f[rho + eps phi]) with f from HelmholtzEnergyFunctional::functional_derivative; verdict rule of DESIGN 3.3 with the cancellation-safe scale sum_c sum_s int |dF_c/drho_s phi_s| (contributions evaluated with convolvers planned per contribution) and rtol: Cartesian/periodic 1e-7 (associating models 1e-6: site fractions iterated to 1e-10), plus 1e-13 int |f| for the roundoff of differencing integrals over the whole grid; spherical: max(1e-7, 2e-4 min(1, (128/n)^8)) in the natural measure 4 pi r^2 dr of the sine-transform pair, and with the grid's own weights (shell volumes 4 pi (r^2 + dr^2/12) dr) the same plus the rigorous bound (dr^2/12) 4 pi dr sum |terms| on the difference of the two discretisations; polar axis (quasi-discrete Hankel transform): 0.5 (n < 1024) / 0.05 (n >= 1024) of the sup-norm scale sum_c max |dF_c/drho| int |phi|");
+    ctx.assume("curvilinear axes (spherical, polar): perturbations at least 3.5 local grid spacings wide and farther from the outer boundary than the largest kernel radius; profiles exactly flat within (largest kernel radius + 4 cells) of the outer boundary (the boundary value is continued beyond the grid by CurvilinearConvolver and vector weighted densities are taken to vanish there)");
+    ctx.assume("oracle (2): |sum_k <psi_k, n_k[rho]> - <Conv^T psi, rho>| <= tol * sum_k |psi_k|_2 |n_k|_2 (norms with the grid's own weights, DFTProfile::integrate): Cartesian/periodic 1e-13; spherical: 1e-10 in the natural measure r^2 and 1e-13 + rigorous bound with the own weights; polar axis 0.02 (n < 1024) / 0.005 (n >= 1024); lattice `shapes`: polar transform pair 2e-3 for n >= 512");
+    ctx.assume("oracle (3) is black-box: the Newton equation solved by the library (GMRES converged to 1e-9 of its right-hand side according to solver_log) is compared with a Richardson-extrapolated central difference of DFTProfile::residual along the step: defect <= max(50 x extrapolation error, 1e-6); no hook in the library is used");
+    ctx.assume("oracle (4): relative Newton residuals r_k <= 1e-3 with converged GMRES of Newton in rho: for runs that reach the floor (1e-9, or twice the plateau on which the sequence stagnates), the order of convergence observed on the last three residuals above the floor, p = ln(r3/r2)/ln(r2/r1), must be >= 1.1 (measured: >= 1.41 on the pinned tree, <= 1.0 typically for an inexact Jacobian; judged only if r1 <= 1e-3, r1 > r2 > r3 and GMRES converged); Newton in ln(rho) is observed only (its update is reflected by abs() where the logarithmic residual is large)");
+
+    let var = PartCfg {
+        name: "variation",
+        genome_len: 130,
+        cases_quick: env("C17_VAR", 500),
+        cases_thorough: env("C17_VAR_THOROUGH", 50_000),
+        panic: PanicPolicy::Count,
+    };
+    ctx.run_sampled(&var, &decode_var, &check_var);
+    if env("C17_SHAPES", 1) == 1 {
+        ctx.run_lattice("shapes", shape_items(), PanicPolicy::Violation, true, &check_shape);
+    }
+    let step = PartCfg {
+        name: "newton-step",
+        genome_len: 110,
+        cases_quick: env("C17_STEP", 300),
+        cases_thorough: env("C17_STEP_THOROUGH", 30_000),
+        panic: PanicPolicy::Count,
+    };
+    ctx.run_sampled(&step, &decode_step, &check_step);
+    let conv = PartCfg {
+        name: "newton-convergence",
+        genome_len: 110,
+        cases_quick: env("C17_CONV", 100),
+        cases_thorough: env("C17_CONV_THOROUGH", 10_000),
+        panic: PanicPolicy::Count,
+    };
+    ctx.run_sampled(&conv, &decode_conv, &check_conv);
+    let w = WORST.lock().unwrap();
+    ctx.extra("measured_worst", serde_json::to_value(&*w).unwrap());
+}
+
+pub fn replay(ctx: &Ctx, part: &str, case: &Value) -> bool {
+    let ok = match part {
+        "variation" => ctx.replay_case::<VarCase>(case, &check_var),
+        "shapes" => ctx.replay_case::<ShapeCase>(case, &check_shape),
+        "newton-step" => ctx.replay_case::<StepCase>(case, &check_step),
+        "newton-convergence" => ctx.replay_case::<ConvCase>(case, &check_conv),
+        other => {
+            eprintln!("unknown part {other}");
+            std::process::exit(2);
+        }
+    };
+    for (k, v) in WORST.lock().unwrap().iter() {
+        println!("measured: {k} = {v:e}");
+    }
+    ok
 }
